@@ -171,10 +171,22 @@ def history_inplace(acc, spec, seed, j):
     names = S.feature_names(spec)
     m = S.build(spec)
     try:
-        ClaferWriter(None, m).transform()
+        w_pre = ClaferWriter(None, m)     # constructed before the edits, asked to transform after them
+        first = ClaferWriter(None, m).transform()
     except Exception:  # noqa: BLE001
         return
     es = copy.deepcopy(spec)
+    if len(names) >= 2 and not spec.get("share_nodes"):
+        # the LIST of constraints is edited too: one more, appended in place or by reassigning the list
+        from flamapy.core.models.ast import AST
+        from flamapy.metamodels.fm_metamodel.models.feature_model import Constraint
+        added = {"name": "added-after-first-export", "ast": ["REQUIRES", names[-1], names[0]]}
+        newc = Constraint(added["name"], AST(S.build_ast(added["ast"])))
+        if r.random() < 0.5:
+            m.ctcs.append(newc)
+        else:
+            m.ctcs = list(m.ctcs) + [newc]
+        es["ctcs"].append(added)
     if r.random() < 0.5:
         i = r.randrange(len(spec["ctcs"]))
         t3 = S.inplace_edit_ast(m.ctcs[i].ast, spec["ctcs"][i]["ast"], r, names, ("AND", "OR", "IMPLIES"))
@@ -221,6 +233,20 @@ def history_inplace(acc, spec, seed, j):
                  {"source": "history", "spec": es, "tags": [], "before": spec}, key)
     else:
         acc.held(cls, key)
+    # the writer constructed before the edits writes the model as it is - or, if it copies at construction, as it
+    # was - never a mixture of the two
+    cls = "history:writer-constructed-before-edit"
+    try:
+        pre = w_pre.transform()
+    except Exception as e:  # noqa: BLE001
+        acc.fail(cls, "no-exception", "clafer", [], f"raises:{type(e).__name__}", str(e)[:200], {"source": "history", "spec": es, "tags": [], "before": spec}, key)
+        return
+    if pre != want and pre != first:
+        acc.fail(cls, "same-configurations", "clafer", [], "mixed-export",
+                 "a writer constructed before in-place edits exported neither the edited nor the original model: "
+                 f"{S.first_diff(pre.splitlines(), want.splitlines())}"[:300], {"source": "history", "spec": es, "tags": [], "before": spec}, key)
+    else:
+        acc.held(cls, S.digest(["c11-pre", es]))
 
 
 class _Level(int):
